@@ -126,3 +126,28 @@ def normal_form(fn: FuncInfo) -> NormalForm:
     if id(fn.node) not in _cache:
         _cache[id(fn.node)] = NormalForm(fn)
     return _cache[id(fn.node)]
+
+
+def returned(fn: FuncInfo, prog=None) -> list[str]:
+    """Canonical text of every value the function returns, expanded at the return (temporaries, if-merged locals as
+    conditional expressions, stateful calls with their ordinals stripped)."""
+    from .dataflow import flow_of
+    from .model import body_walk
+    fl = flow_of(fn, prog)
+    out = []
+    for s in body_walk(fn.node):
+        if isinstance(s, ast.Return) and s.value is not None:
+            out.append(strip_ordinals(canon(fl.expand(s.value, fl.cfg.node_for(s)))))
+    return out
+
+
+def argument(fn: FuncInfo, call: ast.Call, which: int | str, prog=None) -> str | None:
+    """Canonical expanded text of one argument of a call inside fn."""
+    from .dataflow import flow_of
+    fl = flow_of(fn, prog)
+    a = None
+    if isinstance(which, int):
+        a = call.args[which] if which < len(call.args) else None
+    else:
+        a = next((k.value for k in call.keywords if k.arg == which), None)
+    return None if a is None else strip_ordinals(canon(fl.expand(a, fl.cfg.node_for(call))))
